@@ -26,6 +26,6 @@ rm -f $d/$pkg/zz_seed_demo_test.go
 with=$(pkgtests)
 echo "SEED $name: demo without patch rc=$r0 (want 0), with patch rc=$r1 (want !=0); pkg tests base=[$base] patched=[$with]"
 cd /verif
-VERIF_REPO=$d ./check $id $tier > /tmp/vmut/$name.check.log 2>&1; rc=$?
+VERIF_EVIDENCE_DIR=/tmp/vmut/$name.ev VERIF_REPLAY_ROOT=/tmp/vmut/$name.replays VERIF_REPO=$d ./check $id $tier > /tmp/vmut/$name.check.log 2>&1; rc=$?
 echo "SEED $name: check $id $tier rc=$rc $(grep -c ^VIOLATION /tmp/vmut/$name.check.log) violation line(s)"
 git -C /repo worktree remove --force $d; git -C /repo worktree prune
